@@ -293,8 +293,20 @@ def run_case(case):
     props = {YowIqProtocolLayer.PROP_PING_INTERVAL: 0}
     TR.install()      # before any layer object exists (the parallel group creates its members at once)
     rig = TR.Rig(choices=case.get("choices", ()), upper=upper_layers(variant), props=props, preempt=case.get("preempt"))
+    from ..kit.stackkit import loop_budget, LoopBudgetExceeded, functions_of
+    from yowsup.layers.noise.layer import YowNoiseLayer
+    from yowsup.layers.noise.layer_noise_segments import YowNoiseSegmentsLayer
     try:
-        return _run(case, out, rig, variant, fault)
+        # a loop in the transport layers that never ends must end the case with a verdict, not the run with a time-out
+        # (a count of loop iterations, no wall clock)
+        with loop_budget(functions_of(YowNoiseLayer, YowNoiseSegmentsLayer), 300000) as budget:
+            _run(case, out, rig, variant, fault)
+        spun = budget.count > budget.limit or any(isinstance(e, LoopBudgetExceeded) for e in list(rig.recv_errors) + list(rig.net_errors)) or \
+            any(isinstance(e, LoopBudgetExceeded) for n, e in rig.task_errors())
+        if spun:
+            del out.violations[:]
+            out.fail("wedged", "loop_in_transport_layer_never_ends", {"fault": fault})
+        return out
     finally:
         rig.close()
 
@@ -365,6 +377,37 @@ def _run(case, out, rig, variant, fault):
         state["fired"] = results["early"].startswith("raised")
         if variant == "core":
             rig.top.auto_auth = True
+    if kind == "frame_not_ready":
+        # a frame reaches the stack while no session exists (the connection is up, the login has not begun - or bytes that were
+        # in flight when a session was reset): it cannot be processed; that is reported, and nothing spins or stays locked
+        rig.top.auto_auth = False
+        rig.post("connect")
+        rig.run()
+        for i in range(fault.get("frames", 1)):
+            rig.deliver(b"\x00\x00\x05hell" + bytes([0x30 + i]))
+            rig.run()
+        state["fired"] = True
+        if rig.sched.overrun:
+            out.fail("wedged", "frame_not_ready:receive_does_not_return", {})
+            return out
+        stuck = rig.stuck_tasks()
+        if stuck:
+            out.fail("wedged", "frame_not_ready:task_blocked_forever", {"blocked": stuck})
+            return out
+        held = [repr(l) for l in S.held_locks()]
+        if held:
+            out.fail("locks", "frame_not_ready:lock_still_held", {"locks": held[:4]})
+            return out
+        if not rig.recv_errors and not rig.net_errors:
+            out.fail("report", "frame_not_ready:not_reported_to_caller", {})
+            return out
+        del rig.recv_errors[:]
+        if rig.current is not None and rig.current.up:
+            rig.current.inbox.put(("close",))
+        rig.run()
+        rig.post("loop")
+        rig.run()
+        rig.top.auto_auth = True
     if not _login(rig, variant, out, "initial"):
         return out
     if kind == "inject":
@@ -438,7 +481,7 @@ def _run(case, out, rig, variant, fault):
                 expected_in.append(ident)
     probs = rig.shuttle()
     state["armed"] = False     # a fault that did not fire during the generated traffic stays away from the follow-ups
-    fired = state.get("fired", False) or kind in ("bad_attr", "oversize", "garbage", "picture_bad", "streamerror_bad", "app_raises")
+    fired = state.get("fired", False) or kind in ("bad_attr", "oversize", "garbage", "picture_bad", "streamerror_bad", "app_raises", "frame_not_ready")
     out.label("fired" if fired else "not_fired")
 
     def check_quiescent(phase, require_order):
@@ -612,8 +655,9 @@ def _enum_sites():
         for kind, tasks, incoming in (("bad_attr", [["ok", "bad", "ok"], ["ok"]], ["receipt"]),
                                       ("oversize", [["ok", "oversize", "ok"], ["ok"]], ["receipt"]),
                                       ("not_ready", [["ok"], ["ok"]], ["receipt"]),
+                                      ("frame_not_ready", [["ok"], ["ok"]], ["receipt"]),
                                       ("garbage", [["ok"], ["ok"]], ["receipt", "garbage", "receipt", "receipt"])):
-            if kind == "oversize" and variant != "core":
+            if kind in ("oversize", "frame_not_ready") and variant != "core":
                 continue
             yield {"sub": "fault", "variant": variant, "fault": {"kind": kind}, "tasks": tasks, "incoming": incoming,
                    "choices": [], "reconnect": True}
@@ -639,7 +683,7 @@ def case_strategy():
             site, d = draw(st.sampled_from(_sites(variant)))
             fault = {"kind": "inject", "site": site, "dir": d, "nth": draw(st.integers(1, 4))}
         else:
-            kinds = ["bad_attr", "garbage", "not_ready"] + (["oversize"] if variant == "core" else ["picture_bad", "streamerror_bad", "app_raises"])
+            kinds = ["bad_attr", "garbage", "not_ready"] + (["oversize", "frame_not_ready"] if variant == "core" else ["picture_bad", "streamerror_bad", "app_raises"])
             kind = draw(st.sampled_from(kinds))
             fault = {"kind": kind}
             if kind == "oversize":
